@@ -58,8 +58,9 @@ CLAIMS = {
  'C14': ('other', "Deductive: AttackGraphNode.__deepcopy__ (fresh node, fresh empty link lists, tags / extras / ttc / attributes fresh and separated from the original, asset shared, memo updated) "
          "against the assumed contract DEEPCOPY for plain data; Attacker.__deepcopy__, AttackGraph.__init__ and AttackGraph.__deepcopy__ (top-level copy, empty private memo): the copy is a fresh graph "
          "sharing only model / language / assets, the memo is an isomorphism onto fresh node and attacker copies with equal scalar fields, node order, all link lists, entry / reached lists and the three "
-         "indexes are the element-wise images, counters equal, nothing old is written except the memo (assumed: DEEPCOPY-REFS, DEEPCOPY-ATTACKERS, KEEP-ALIVE[-OPAQUE], ABSTRACT-GEN). "
-         "Bounded: content equality of per-node data at graph level, wf of the copy as one predicate and independence under later mutations by the floor (graphs <=3 nodes, 28 mutations).", '4 C14'),
+         "indexes are the element-wise images, per-node data (tags / extras / ttc / attributes) has the same first-level content in fresh containers, counters equal, nothing old is written "
+         "except the memo (assumed: DEEPCOPY-REFS, DEEPCOPY-ATTACKERS, KEEP-ALIVE[-OPAQUE], ABSTRACT-GEN). "
+         "Bounded: wf of the copy as one predicate and independence under later mutations by the floor (graphs <=3 nodes, 28 mutations).", '4 C14'),
  'C15': ('other', "Deductive: the query layer of the language graph - is_subasset_of == reflexive-transitive closure of `extends` (with termination), get_all_superassets / get_all_subassets == the ancestors / descendants "
          "(as sets, the asset itself first), get_all_common_superassets == names of the common ancestors, get_asset_by_name, the association helpers (contains_fieldname, get_opposite_fieldname, contains_asset, "
          "get_opposite_asset: left end first, sub-type aware) and get_association_by_fields_and_assets (first association matching both ends in either orientation). Bounded: construction of the language graph "
